@@ -45,6 +45,13 @@ Record ecase := EC {
                                                node, whether the whole subtree is expected, and the tree found at
                                                the destination path afterwards                              *)
   ec_expect_ok : bool;                      (* the call is valid by construction: it must not raise    *)
+  ec_res_paths : option (nat * list nat * list nat);
+                                            (* (sep, path_name) of the result's nodes in pre-order, interned like
+                                               e_path: (mode, observed, expected).  mode 0: the result is rooted at a
+                                               copy of the input root and complete - must equal the input's; 1: rooted
+                                               there but pruned - every one must be an input node's; 2: rooted at a copy
+                                               of an inner node / a clone - the new root falls back to its own
+                                               separator: compared with the harness-side expectation (agreement only) *)
   ec_sepw : bool                            (* the input is get_tree_diff's other_tree and its separator differs
                                                from the first tree's: helper.py:336 overwrites it (sk_diff) *)
 }.
@@ -97,7 +104,13 @@ Definition observed (c : ecase) : clauses :=
          | _, _ => true end
       && forallb (fun q : id * bool * rt =>
                     let '(anchor, exact, t) := q in result_equal_part exact (ec_before c) anchor t)
-                 (ec_pairs c))
+                 (ec_pairs c)
+      (* "equal to the corresponding part" includes sep / path_name of the nodes *)
+      && match ec_res_paths c with
+         | Some (0, obs, _) => list_eqb Nat.eqb obs (map e_path (sg_entries (ec_before c)))
+         | Some (1, obs, _) => forallb (fun x => memb x (map e_path (sg_entries (ec_before c)))) obs
+         | _ => true
+         end)
      (match ec_after_mr c with Some s => sig_eqb (ec_before c) s | None => true end)
      (match ec_res12 c with Some (a, b) => rt_eqb a b | None => true end
       && match ec_dres12 c with Some (a, b) => dres_eqb a b | None => true end
@@ -323,12 +336,18 @@ Definition agree_dag (c : ecase) : bool :=
   end.
 
 (* the skeletons have no failure path: a call that is valid by construction returns *)
+Definition agree_paths (c : ecase) : bool :=
+  match ec_res_paths c with
+  | Some (2, obs, expd) => list_eqb Nat.eqb obs expd
+  | _ => true
+  end.
+
 Definition agree_returns (c : ecase) : bool :=
   implb (ec_expect_ok c) (match ec_fn c with FRaised => false | _ => true end).
 
 Definition agree_C07 (c : ecase) : bool :=
   implc (predicted c) (observed c) && agree_run c && agree_binary_clone c && agree_nodes c && agree_dag c
-  && agree_returns c.
+  && agree_returns c && agree_paths c.
 
 Definition well_formed_case (c : ecase) : bool :=
   Nat.eqb (length (sg_entries (ec_before c))) (ec_n c)
